@@ -1,4 +1,9 @@
 //! Counting global allocator: lets a check bound the peak allocation of one call.
+//!
+//! Requests of a gigabyte or more are not forwarded to the system allocator (which refuses or
+//! aborts on the terabyte-sized requests a hostile length field can cause) but served by an
+//! unreserved anonymous mapping: the address range is valid and zeroed, memory is committed only
+//! where it is touched. The process therefore survives the request and the oracle sees its size.
 use std::alloc::{GlobalAlloc, Layout, System};
 use std::sync::atomic::{AtomicUsize, Ordering};
 
@@ -6,35 +11,81 @@ pub struct Counting;
 static CUR: AtomicUsize = AtomicUsize::new(0);
 static PEAK: AtomicUsize = AtomicUsize::new(0);
 static BIGGEST: AtomicUsize = AtomicUsize::new(0);
+const HUGE: usize = 1 << 30;
+
+unsafe fn map_huge(size: usize) -> *mut u8 {
+    let p = libc::mmap(std::ptr::null_mut(), size, libc::PROT_READ | libc::PROT_WRITE, libc::MAP_PRIVATE | libc::MAP_ANONYMOUS | libc::MAP_NORESERVE, -1, 0);
+    if p == libc::MAP_FAILED {
+        std::ptr::null_mut()
+    } else {
+        p as *mut u8
+    }
+}
+
+fn count_up(size: usize) {
+    let c = CUR.fetch_add(size, Ordering::Relaxed) + size;
+    PEAK.fetch_max(c, Ordering::Relaxed);
+    BIGGEST.fetch_max(size, Ordering::Relaxed);
+}
 
 unsafe impl GlobalAlloc for Counting {
     unsafe fn alloc(&self, l: Layout) -> *mut u8 {
-        let p = System.alloc(l);
+        let p = if l.size() >= HUGE && l.align() <= 4096 { map_huge(l.size()) } else { System.alloc(l) };
         if !p.is_null() {
-            let c = CUR.fetch_add(l.size(), Ordering::Relaxed) + l.size();
-            PEAK.fetch_max(c, Ordering::Relaxed);
-            BIGGEST.fetch_max(l.size(), Ordering::Relaxed);
+            count_up(l.size());
+        }
+        p
+    }
+    unsafe fn alloc_zeroed(&self, l: Layout) -> *mut u8 {
+        if l.size() >= HUGE && l.align() <= 4096 {
+            // a fresh anonymous mapping is zeroed already
+            let p = map_huge(l.size());
+            if !p.is_null() {
+                count_up(l.size());
+            }
+            return p;
+        }
+        let p = System.alloc_zeroed(l);
+        if !p.is_null() {
+            count_up(l.size());
         }
         p
     }
     unsafe fn dealloc(&self, p: *mut u8, l: Layout) {
-        System.dealloc(p, l);
+        if l.size() >= HUGE && l.align() <= 4096 {
+            libc::munmap(p as *mut libc::c_void, l.size());
+        } else {
+            System.dealloc(p, l);
+        }
         CUR.fetch_sub(l.size(), Ordering::Relaxed);
     }
     unsafe fn realloc(&self, p: *mut u8, l: Layout, new_size: usize) -> *mut u8 {
+        if l.align() <= 4096 && (l.size() >= HUGE || new_size >= HUGE) {
+            // moving between the two regimes (or inside the mapped one): allocate, copy, free
+            let nl = Layout::from_size_align_unchecked(new_size, l.align());
+            let q = self.alloc(nl);
+            if !q.is_null() {
+                std::ptr::copy_nonoverlapping(p, q, l.size().min(new_size));
+                self.dealloc(p, l);
+            }
+            return q;
+        }
         let q = System.realloc(p, l, new_size);
         if !q.is_null() {
             if new_size >= l.size() {
-                let d = new_size - l.size();
-                let c = CUR.fetch_add(d, Ordering::Relaxed) + d;
-                PEAK.fetch_max(c, Ordering::Relaxed);
-                BIGGEST.fetch_max(new_size, Ordering::Relaxed);
+                count_up_delta(new_size - l.size(), new_size);
             } else {
                 CUR.fetch_sub(l.size() - new_size, Ordering::Relaxed);
             }
         }
         q
     }
+}
+
+fn count_up_delta(d: usize, new_size: usize) {
+    let c = CUR.fetch_add(d, Ordering::Relaxed) + d;
+    PEAK.fetch_max(c, Ordering::Relaxed);
+    BIGGEST.fetch_max(new_size, Ordering::Relaxed);
 }
 
 /// Runs `f` and returns (result, peak bytes allocated above the level at entry).
